@@ -170,6 +170,51 @@ type ExtOwnerProfile struct{}
 func (ExtOwnerProfile) GetName() string             { return ExtOwnerName }
 func (ExtOwnerProfile) GetClaims() psatoken.IClaims { return NewExtOwnerClaims() }
 
+// ---- an extension of profile 2 whose validator is careless: it dereferences
+// its own optional claim without checking that it is there, i.e. Validate()
+// PANICS for a token lacking that claim ---------------------------------------------
+
+const ExtFragileName = "http://example.com/psa-fragile/1.0.0"
+
+type ExtFragileClaims struct {
+	psatoken.P2Claims
+	Serial *string `cbor:"-75400,keyasint,omitempty" json:"x-serial,omitempty"`
+}
+
+func (o *ExtFragileClaims) Validate() error {
+	if err := psatoken.ValidateClaims(o); err != nil {
+		return err
+	}
+	if len(*o.Serial) == 0 { // nil dereference when the claim is absent
+		return fmt.Errorf("%w: empty serial", psatoken.ErrWrongSyntax)
+	}
+	return nil
+}
+
+func (o ExtFragileClaims) MarshalCBOR() ([]byte, error) {
+	return encoding.SerializeStructToCBOR(EM, &o)
+}
+func (o *ExtFragileClaims) UnmarshalCBOR(data []byte) error {
+	return encoding.PopulateStructFromCBOR(DM, data, o)
+}
+func (o ExtFragileClaims) MarshalJSON() ([]byte, error) { return encoding.SerializeStructToJSON(&o) }
+func (o *ExtFragileClaims) UnmarshalJSON(data []byte) error {
+	return encoding.PopulateStructFromJSON(data, o)
+}
+
+func NewExtFragileClaims() psatoken.IClaims {
+	p := eat.Profile{}
+	if err := p.Set(ExtFragileName); err != nil {
+		panic(err)
+	}
+	return &ExtFragileClaims{P2Claims: psatoken.P2Claims{Profile: &p, SwComponents: &psatoken.SwComponents[*psatoken.SwComponent]{}, CanonicalProfile: ExtFragileName}}
+}
+
+type ExtFragileProfile struct{}
+
+func (ExtFragileProfile) GetName() string             { return ExtFragileName }
+func (ExtFragileProfile) GetClaims() psatoken.IClaims { return NewExtFragileClaims() }
+
 // ---- a stricter extension of profile 2 whose own rules are reported with the
 // library's "ignorable" sentinels ---------------------------------------------------
 
@@ -290,6 +335,8 @@ func Register(names ...string) error {
 			p = ExtStrictProfile{}
 		case ExtOwnerName:
 			p = ExtOwnerProfile{}
+		case ExtFragileName:
+			p = ExtFragileProfile{}
 		default:
 			return errors.New("unknown extension profile " + n)
 		}
